@@ -160,6 +160,7 @@ def run(chk, tier):
                                  "case": case.describe()}
             finally:
                 sys.setswitchinterval(old)
+    tid = real_thread_stress(chk, tier, traces, meta, tid)
     engagement_events(env, rnd)
     judge_pool(chk, traces, meta, OWN)
     c03.judge(chk, env.rec, OWN)
@@ -170,6 +171,51 @@ def run(chk, tier):
                 "TLC behaviour of the pool model); distinct by (cube, aggregates, pool size, schedule)")
     chk.assumptions += ["the scheduler serialises threads at bytecode granularity; a NumPy C call is one atomic step (GIL)",
                         "chunking/exception semantics of the stand-in pool copy CPython 3.12 Pool.map"]
+
+
+def real_thread_stress(chk, tier, traces, meta, tid):
+    """what the bytecode scheduler cannot reach: code that runs with the GIL released (the Cython kernels) really does
+    run in parallel. Cubes with 20000 rows (the kernels then run for microseconds at a time) are evaluated with the real
+    ThreadPool under a 1 microsecond switch interval; the pooled arrays must equal the serial ones bit for bit. The
+    oracle here is the property itself (pooled = serial); serial results are judged against Agg.tla elsewhere."""
+    import numpy as np
+    from catii import ccube, xcube, iindex
+    rng = np.random.RandomState(core.SEED + 16)
+    N, cols = 20000, 12
+    a = rng.randint(0, 4, size=(N, cols)).astype(np.uint8)
+    b = rng.randint(0, 5, size=N).astype(np.uint8)
+    c = rng.randint(0, 3, size=(N, 3)).astype(np.uint8)
+    fact, weights = rng.rand(N), rng.rand(N)
+    setups = [("ccube", lambda: ccube([iindex.from_array(a), iindex.from_array(b)])),
+              ("ccube", lambda: ccube([iindex.from_array(b), iindex.from_array(c), iindex.from_array(b)])),
+              ("xcube", lambda: xcube([a, b]))]
+
+    def evaluate(make, parallel, P):
+        cube = make()
+        cube.parallel, cube.poolsize = parallel, P
+        return [cube.count(), cube.count(weights=weights), cube.sum(fact), cube.mean(fact, weights=weights), cube.valid_count(fact)]
+    old = sys.getswitchinterval()
+    sys.setswitchinterval(1e-6)
+    try:
+        for kind, make in setups:
+            serial = evaluate(make, False, 1)
+            for P in ((2, 4, 8) if tier == "quick" else (2, 3, 4, 8, 16)):
+                for rep in range(3 if tier == "quick" else 10):
+                    exc = None
+                    try:
+                        outs = evaluate(make, True, P)
+                    except Exception as e:  # noqa
+                        outs, exc = None, "%s: %s" % (type(e).__name__, e)
+                    tid += 1
+                    traces.append({"tid": tid, "prop": OWN, "mode": "real", "P": P, "T": 3, "CS": 1, "faults": [], "events": [],
+                                   "outcome": "returned" if outs is not None else "raised", "tagok": outs is not None,
+                                   "sameasserial": outs is not None and pl.same_bits(outs, serial), "secondok": True,
+                                   "steps": 0, "switches": 0, "pools": 1})
+                    meta[tid] = {"cube": kind, "aggregates": ["count", "weighted count", "sum", "weighted mean", "valid_count"], "P": P,
+                                 "real_threadpool": True, "rows": N, "case": "20000 random rows, seed %d" % (core.SEED + 16), "exc": exc}
+    finally:
+        sys.setswitchinterval(old)
+    return tid
 
 
 def judge_pool(chk, traces, meta, own):
